@@ -10,6 +10,7 @@ import (
 	"log/slog"
 	"net/netip"
 
+	"github.com/google/uuid"
 	"github.com/osrg/gobgp/v4/internal/pkg/table"
 	"github.com/osrg/gobgp/v4/pkg/config/oc"
 	"github.com/osrg/gobgp/v4/pkg/packet/bgp"
@@ -269,3 +270,5 @@ func vUpdate6(prefix *bgp.IPAddrPrefix, withdraw bool, aspath []uint32) *bgp.BGP
 		bgp.NewPathAttributeAsPath([]bgp.AsPathParamInterface{bgp.NewAs4PathParam(bgp.BGP_ASPATH_ATTR_TYPE_SEQ, aspath)}), mp}
 	return bgp.NewBGPUpdateMessage(nil, attrs, nil)
 }
+
+type uuidT = uuid.UUID
